@@ -101,7 +101,7 @@ theorem invC_begin {c s i s'} (h : InvC c s) (hs : step c s (.begin i) = some s'
     · exact hj
   · cases hs
 
-theorem invC_abort {c s i s'} (h : InvC c s) (hs : step c s (.abort i) = some s') : InvC c s' := by
+theorem invC_abort {c s i t s'} (h : InvC c s) (hs : step c s (.abort i t) = some s') : InvC c s' := by
   simp only [step] at hs
   split at hs
   · rename_i hc
@@ -156,23 +156,25 @@ theorem recvErr_C (c : Cfg) (s1 : St) (i : Nat) (r : Res) :
 /-- the state with the head of the channel taken off. -/
 def recv0 (s : St) (i : Nat) (rest : List (Nat × Res)) : St := { s with chan := rest, phase := upd s.phase i .consumed }
 
-theorem recvStep_term (c : Cfg) (s : St) (i : Nat) (r : Res) (rest : List (Nat × Res)) (h : c.hasTerm = true ∧ r = .term) :
-    recvStep c s i r rest = terminate c (recv0 s i rest) (.inst i) := by
-  unfold recvStep recv0; simp [h.1, h.2]
+theorem recvStep_term (c : Cfg) (s : St) (i : Nat) (r : Res) (rest : List (Nat × Res)) (h : isTerminal c s i r = true) :
+    recvStep c s i r rest = terminate c (recv0 s i rest) (errKind i r) := by
+  unfold recvStep recv0; simp only []; rw [if_pos h]
+
+theorem isTerminal_ok (c : Cfg) (s : St) (i : Nat) : isTerminal c s i .ok = false := by simp [isTerminal]
 
 theorem recvStep_ok (c : Cfg) (s : St) (i : Nat) (rest : List (Nat × Res)) :
     recvStep c s i .ok rest = recvOk c (trackerDone c (recv0 s i rest) i false) i := by
-  unfold recvStep recv0; simp
+  unfold recvStep recv0; simp [isTerminal_ok]
 
-theorem recvStep_err (c : Cfg) (s : St) (i : Nat) (r : Res) (rest : List (Nat × Res)) (h : ¬ (c.hasTerm = true ∧ r = .term)) (hr : r ≠ .ok) :
+theorem recvStep_err (c : Cfg) (s : St) (i : Nat) (r : Res) (rest : List (Nat × Res)) (h : ¬ (isTerminal c s i r = true)) (hr : r ≠ .ok) :
     recvStep c s i r rest = recvErr c (trackerDone c (recv0 s i rest) i true) i r := by
-  unfold recvStep recv0; simp only []; rw [if_neg (by simpa using h), if_neg hr]
+  unfold recvStep recv0; simp only []; rw [if_neg h, if_neg hr]
 
 /-- counters after a `recv`, by case. -/
 theorem recvStep_C (c : Cfg) (s : St) (i : Nat) (r : Res) (rest : List (Nat × Res)) :
     ∀ t, t = recvStep c s i r rest →
-    ((c.hasTerm = true ∧ r = .term) ∧ t.nSucc = s.nSucc ∧ t.nErr = s.nErr ∧ t.waiting = s.waiting ∧ t.fails = s.fails ∧ t.doneErr = s.doneErr) ∨
-    (¬ (c.hasTerm = true ∧ r = .term) ∧
+    (isTerminal c s i r = true ∧ t.nSucc = s.nSucc ∧ t.nErr = s.nErr ∧ t.waiting = s.waiting ∧ t.fails = s.fails ∧ t.doneErr = s.doneErr) ∨
+    (¬ (isTerminal c s i r = true) ∧
       t.doneErr = (if r = .ok then s.doneErr else s.doneErr ++ [i]) ∧
       (c.zoneMode = false → t.nSucc = (if r = .ok then s.nSucc + 1 else s.nSucc) ∧ t.nErr = (if r = .ok then s.nErr else s.nErr + 1) ∧
           t.waiting = s.waiting ∧ t.fails = s.fails) ∧
@@ -180,7 +182,7 @@ theorem recvStep_C (c : Cfg) (s : St) (i : Nat) (r : Res) (rest : List (Nat × R
           t.waiting = upd s.waiting (c.zoneOf i) (s.waiting (c.zoneOf i) - 1) ∧
           t.fails = (if r = .ok then s.fails else upd s.fails (c.zoneOf i) (s.fails (c.zoneOf i) + 1)))) := by
   intro t ht
-  by_cases hT : c.hasTerm = true ∧ r = .term
+  by_cases hT : isTerminal c s i r = true
   · left
     rw [recvStep_term c s i r rest hT] at ht; subst ht
     exact ⟨hT, rfl, rfl, rfl, rfl, rfl⟩
@@ -262,7 +264,7 @@ theorem invC_recv {c s s'} (hA : InvA c s) (h : InvC c s) (hs : step c s .recv =
         intro hm; have := c4 i hm; simp [hpi] at this
       generalize recvStep c s i r rest = t at *
       rcases hC with ⟨hT, d1, d2, d3, d4, d5⟩ | ⟨hT, d5, dflat, dzone⟩
-      · have hr : r ≠ .ok := by rw [hT.2]; decide
+      · have hr : r ≠ .ok := isTerminal_ne_ok hT
         simp only [hr, if_false] at s6
         refine ⟨?_, ?_, ?_, ?_, ?_, ?_, ?_, ?_, ?_⟩
         · rw [d1, s6]; exact c1
@@ -341,7 +343,7 @@ theorem invC_step {c s e s'} (hA : InvA c s) (h : InvC c s) (hs : step c s e = s
   | recv => exact invC_recv hA h hs
   | ctxDone => exact invC_ctxDone h hs
   | «begin» i => exact invC_begin h hs
-  | abort i => exact invC_abort h hs
+  | abort i t => exact invC_abort h hs
   | drain => exact invC_drain h hs
   | cancelOne i => exact invC_cancelOne h hs
 
